@@ -10,6 +10,7 @@
 package main
 
 import (
+	"runtime/debug"
 	"sync/atomic"
 	"bytes"
 	"encoding/json"
@@ -244,7 +245,7 @@ func newKeygen(n, t, si int, checkPk []int) *keygen {
 		xs[i] = i + 1
 	}
 	var dmu sync.Mutex
-	ev.Par(n-t-1, func(q int) {
+	par(n-t-1, func(q int) {
 		j := t + 1 + q
 		if interpAt(xs, k.sk[:t+1], j+1).Cmp(k.sk[j]) != 0 {
 			run.Violation("keygen:share-not-on-degree-t-polynomial",
@@ -297,7 +298,7 @@ func newKeygen(n, t, si int, checkPk []int) *keygen {
 		}
 	}
 	var mu sync.Mutex
-	ev.Par(len(checkPk)+1, func(j int) {
+	par(len(checkPk)+1, func(j int) {
 		if j == len(checkPk) {
 			want := refbls.EncodeG2Flow(refbls.G2Gen().Mul(k.a0))
 			if !bytes.Equal(want, k.gpk.Encode()) {
@@ -355,7 +356,7 @@ func newContext(k *keygen, mi int, signers []int, variants bool) *context {
 		c.bad[kd] = make([][]byte, k.n)
 	}
 	var mu sync.Mutex
-	ev.Par(len(signers), func(j int) {
+	par(len(signers), func(j int) {
 		i := signers[j]
 		s, err := k.sks[i].Sign(c.msg.m, crypto.NewExpandMsgXOFKMAC128(c.msg.tag))
 		if err != nil {
@@ -415,6 +416,31 @@ func newContext(k *keygen, mi int, signers []int, variants bool) *context {
 }
 
 // ---------------------------------------------------------------- API paths
+
+// par is ev.Par with a panic barrier: a Go panic of the library (an index out of range in a
+// validation table, a nil dereference) is a violation of "any valid share list gives the group
+// signature / any invalid one the documented error", not a harness failure.
+func par(n int, f func(i int)) {
+	ev.Par(n, func(i int) {
+		defer func() {
+			if r := recover(); r != nil {
+				st := string(debug.Stack())
+				where := "?"
+				for _, l := range strings.Split(st, "\n") {
+					if strings.Contains(l, "github.com/onflow/crypto.") && !strings.Contains(l, "zzverif") {
+						where = strings.TrimSpace(l)
+						if k := strings.Index(where, "("); k > 0 {
+							where = where[:k]
+						}
+						break
+					}
+				}
+				run.Violation("panic:"+where, fmt.Sprintf("the library panicked: %v (case %d of a parallel part; first library frame %s)", r, i, where), map[string]any{"panic": fmt.Sprint(r), "stack": st})
+			}
+		}()
+		f(i)
+	})
+}
 
 func stateless(n, t int, shares [][]byte, signers []int) ([]byte, error) {
 	if len(shares) == 0 {
@@ -923,7 +949,7 @@ func histories(c *context, depth int, invalidKinds int) {
 	states := map[string]bool{}
 	trans := map[string]bool{}
 	obsSeen := map[string]int64{}
-	ev.Par(total, func(id int) {
+	par(total, func(id int) {
 		seq := make([]op, depth)
 		x := id
 		for d := 0; d < depth; d++ {
@@ -1166,7 +1192,7 @@ func main() {
 	run.Set("cases_a", len(cases))
 	var nC int64
 	var cMu sync.Mutex
-	ev.Par(len(cases), func(i int) {
+	par(len(cases), func(i int) {
 		if run.Expired() {
 			return
 		}
@@ -1215,7 +1241,7 @@ func main() {
 			for pos := 0; pos <= t; pos += t { // first and last used position
 				signer := order[pos]
 				cands := refbls.G1Candidates(c.sharePt[signer], c.H)
-				ev.Par(len(cands), func(i int) {
+				par(len(cands), func(i int) {
 					cd := cands[i]
 					if len(cd.Bytes) != 48 {
 						return // other lengths are refused before parsing (C09 / part d)
@@ -1282,7 +1308,7 @@ func main() {
 			dctx = append(dctx, c)
 		}
 	}
-	ev.Par(len(dctx), func(i int) { errorShapes(dctx[i]) })
+	par(len(dctx), func(i int) { errorShapes(dctx[i]) })
 	fmt.Printf("C06 (d) done at %.1fs\n", elapsed())
 
 	// ---- (e)
@@ -1348,7 +1374,7 @@ func main() {
 		}
 	}
 	run.Set("cases_b", len(bcases))
-	ev.Par(len(bcases), func(i int) {
+	par(len(bcases), func(i int) {
 		if run.Expired() {
 			return
 		}
@@ -1454,7 +1480,7 @@ func longShareLists() {
 		}
 	}
 	var amu sync.Mutex
-	ev.Par(len(jobs), func(i int) {
+	par(len(jobs), func(i int) {
 		la := newAcc()
 		validCase(jobs[i].c, "g", jobs[i].o, la, 3)
 		amu.Lock()
